@@ -148,17 +148,6 @@ Qed.
 
 (** * The PRECEDED BY sweep *)
 
-Lemma preceded_by_cons : forall w a la b lb,
-  preceded_by w (a :: la) (b :: lb) =
-  if ts b <? ts a then
-    let '(l, rest) := latest_before (ts a) b lb in
-    (if w a l then [(a, l)] else []) ++ preceded_by w la (l :: rest)
-  else preceded_by w (a :: la) lb.
-Proof. reflexivity. Qed.
-
-Lemma preceded_by_nil_r : forall w la, preceded_by w la [] = [].
-Proof. destruct la; reflexivity. Qed.
-
 Lemma latest_before_spec : forall ta rest cur l rest',
   latest_before ta cur rest = (l, rest') -> ts cur < ta ->
   ts l < ta /\ In l (cur :: rest) /\ (forall x, In x rest' -> In x rest).
@@ -172,12 +161,28 @@ Proof.
     + inversion H. subst. split; [exact Hc|]. split; [left; reflexivity|]. intros x Hx. exact Hx.
 Qed.
 
-Lemma preceded_by_sound : forall w la lb a b,
-  In (a, b) (preceded_by w la lb) -> In a la /\ In b lb /\ ts b < ts a /\ w a b = true.
+(** since fix 49473e7 the final [else] branch advances the a pointer ([seq_pb_else_advances_a] is
+    regenerated as [true]; this lemma stops checking if the Rust text goes back) *)
+Lemma preceded_by_is_fixed : preceded_by = preceded_by_gen true.
+Proof. reflexivity. Qed.
+
+Lemma preceded_fixed_cons : forall w a la b lb,
+  preceded_by_gen true w (a :: la) (b :: lb) =
+  if ts b <? ts a then
+    let '(l, rest) := latest_before (ts a) b lb in
+    (if w a l then [(a, l)] else []) ++ preceded_by_gen true w la (l :: rest)
+  else preceded_by_gen true w la (b :: lb).
+Proof. reflexivity. Qed.
+
+Lemma preceded_fixed_nil_r : forall w la, preceded_by_gen true w la [] = [].
+Proof. destruct la; reflexivity. Qed.
+
+Lemma preceded_fixed_sound : forall w la lb a b,
+  In (a, b) (preceded_by_gen true w la lb) -> In a la /\ In b lb /\ ts b < ts a /\ w a b = true.
 Proof.
   intros w la. induction la as [|a0 la IH]; intros lb a b H; [destruct H|].
-  induction lb as [|b0 lb IHb]; [rewrite preceded_by_nil_r in H; destruct H|].
-  rewrite preceded_by_cons in H. destruct (ts b0 <? ts a0) eqn:E.
+  destruct lb as [|b0 lb]; [rewrite preceded_fixed_nil_r in H; destruct H|].
+  rewrite preceded_fixed_cons in H. destruct (ts b0 <? ts a0) eqn:E.
   - destruct (latest_before (ts a0) b0 lb) as [l rest] eqn:El.
     destruct (latest_before_spec _ _ _ _ _ El ltac:(lia)) as [L1 [L2 L3]].
     apply in_app_or in H. destruct H as [H|H].
@@ -185,18 +190,17 @@ Proof.
       repeat split; try (left; reflexivity); assumption.
     + apply IH in H. destruct H as [Ha [Hb Hr]]. repeat split; try tauto; [right; exact Ha|].
       destruct Hb as [Hb|Hb]; [subst; exact L2|]. right. apply L3. exact Hb.
-  - apply IHb in H. destruct H as [Ha [Hb Hr]]. repeat split; try tauto. right. exact Hb.
+  - apply IH in H. destruct H as [Ha [Hb Hr]]. repeat split; try tauto. right. exact Ha.
 Qed.
 
-(** once the head of the b-list is strictly before every a-row, every a-row is matched *)
-Lemma preceded_by_all_matched : forall w la lb b0,
+Lemma preceded_fixed_all_matched : forall w la lb b0,
   Sorted ts_le la ->
   (forall a, In a la -> ts b0 < ts a) ->
   (forall a b, In a la -> In b (b0 :: lb) -> w a b = true) ->
-  forall a, In a la -> exists b, In (a, b) (preceded_by w la (b0 :: lb)).
+  forall a, In a la -> exists b, In (a, b) (preceded_by_gen true w la (b0 :: lb)).
 Proof.
   intros w la. induction la as [|a0 la IH]; intros lb b0 Sa Hlt Hw a Ha; [destruct Ha|].
-  rewrite preceded_by_cons.
+  rewrite preceded_fixed_cons.
   assert (E : ts b0 <? ts a0 = true) by (specialize (Hlt a0 (or_introl eq_refl)); lia). rewrite E.
   destruct (latest_before (ts a0) b0 lb) as [l rest] eqn:El.
   destruct (latest_before_spec _ _ _ _ _ El ltac:(lia)) as [L1 [L2 L3]].
@@ -209,15 +213,36 @@ Proof.
     + exists b. apply in_or_app. right. exact Hb.
 Qed.
 
-(** ... and when the earliest a-row is not after the earliest b-row, the sweep returns nothing *)
-Lemma preceded_by_blocked_empty : forall w lb a0 la,
-  Sorted ts_le lb -> (forall b, In b lb -> ts a0 <= ts b) ->
-  preceded_by w (a0 :: la) lb = [].
+Lemma preceded_fixed_complete : forall w la lb,
+  Sorted ts_le la -> Sorted ts_le lb ->
+  (forall a b, In a la -> In b lb -> w a b = true) ->
+  forall a, In a la -> (exists b, In b lb /\ ts b < ts a) -> exists b, In (a, b) (preceded_by_gen true w la lb).
 Proof.
-  intros w lb. induction lb as [|b0 lb IH]; intros a0 la Sb Hge; [reflexivity|].
-  rewrite preceded_by_cons. pose proof (Hge b0 (or_introl eq_refl)).
-  replace (ts b0 <? ts a0) with false by lia.
-  apply IH; [exact (sorted_tail _ _ Sb)|]. intros b Hb. apply Hge. right. exact Hb.
+  intros w la. induction la as [|a0 la IH]; intros lb Sa Sb Hw a Ha Hex; [destruct Ha|].
+  destruct lb as [|b0 lb]; [destruct Hex as [b [[] _]]|].
+  destruct (ts b0 <? ts a0) eqn:E.
+  - (* the head of the b-list is before the earliest a-row: everybody is matched *)
+    apply preceded_fixed_all_matched; auto.
+    intros x [Hx|Hx]; [subst; lia|]. pose proof (sorted_head_le _ _ Sa x Hx). lia.
+  - (* a0 has no earlier b-row (the b-list is sorted): it is skipped, the b-list is kept *)
+    rewrite preceded_fixed_cons, E.
+    destruct Ha as [Ha|Ha].
+    + subst a0. destruct Hex as [b [Hb Hlt]]. exfalso.
+      destruct Hb as [Hb|Hb]; [subst; lia|]. pose proof (sorted_head_le _ _ Sb b Hb). lia.
+    + apply IH; auto; [exact (sorted_tail _ _ Sa)|]. intros; apply Hw; [right|]; assumption.
+Qed.
+
+(** the PRECEDED BY sweep alone, on sorted lists and a WHERE that accepts every pair: matched iff a
+    strictly earlier b-row exists *)
+Theorem preceded_by_matched_iff : forall w la lb,
+  Sorted ts_le la -> Sorted ts_le lb ->
+  (forall a b, In a la -> In b lb -> w a b = true) ->
+  forall a, In a la ->
+  ((exists b, In (a, b) (preceded_by w la lb)) <-> (exists b, In b lb /\ ts b < ts a)).
+Proof.
+  rewrite preceded_by_is_fixed. intros w la lb Sa Sb Hw a Ha. split.
+  - intros [b H]. apply preceded_fixed_sound in H. exists b. tauto.
+  - intros H. eapply preceded_fixed_complete; eauto.
 Qed.
 
 (** * Groups, LIMIT, soundness *)
@@ -243,7 +268,7 @@ Proof.
   destruct (g_a g) as [|a0 ga] eqn:Ea; [destruct H|]. destruct (g_b g) as [|b0 gb] eqn:Eb; [destruct H|].
   destruct lk.
   - apply followed_by_sound in H. tauto.
-  - apply preceded_by_sound in H. tauto.
+  - rewrite preceded_by_is_fixed in H. apply preceded_fixed_sound in H. tauto.
 Qed.
 
 (** Every returned pair consists of an a-row and a b-row that were given to the matcher, carry the
@@ -530,16 +555,14 @@ Section Composed.
         rewrite (match_group_nonempty _ _ _ _ _ Ga Gb). exact Hb'.
   Qed.
 
-  (** PRECEDED BY, outside the known class: if no group is blocked (earliest a-row not after the
-      earliest b-row although some a-row has an earlier b-row), an a-event is matched if and only if
-      some b-event carries the same link value, is strictly earlier, and the pair satisfies WHERE. *)
-  Theorem matched_iff_exists_preceded_by_outside_known :
-    (forall g, In g (make_groups la lb) -> preceded_blocked g = false) ->
-    forall a, In a sa ->
+  (** PRECEDED BY through the whole pipeline (since fix 49473e7, no KnownClass left): an a-event is
+      matched if and only if some b-event carries the same link value, is strictly earlier, and the
+      pair satisfies the WHERE. *)
+  Theorem matched_iff_exists_preceded_by : forall a, In a sa ->
     ((exists b, In (a, b) (seq_query PrecededBy wh ta tb None sa sb)) <->
      (exists b, In b sb /\ linked a b /\ time_lt b a /\ spec_where fa fb wh ta tb a b = true)).
   Proof.
-    intros Hnb a Ha. unfold seq_query. fold la lb. split.
+    intros a Ha. unfold seq_query. fold la lb. split.
     - intros [b H]. apply pairs_sound in H. destruct H as [Hia [Hib [Hl [Ht [Wa Wb]]]]].
       apply la_In in Hia. apply lb_In in Hib. exists b. split; [tauto|]. split; [exact Hl|]. split.
       + apply ts_lt_time; [apply Htime; apply in_or_app; right; tauto|apply Htime; apply in_or_app; left; tauto|exact Ht].
@@ -555,52 +578,24 @@ Section Composed.
       { cbn [g g_b]. apply sort_stable_In. apply filter_In. split; [exact Hib|apply has_key_iff; exact Kb]. }
       assert (Hts : ts b < ts a).
       { apply ts_lt_time; [apply Htime; apply in_or_app; right; exact Hb|apply Htime; apply in_or_app; left; exact Ha|exact Ht]. }
-      pose proof (Hnb g Hg) as Hblk. unfold preceded_blocked in Hblk.
-      pose proof (sort_stable_sorted (filter (has_key k) la)) as Sa.
-      pose proof (sort_stable_sorted (filter (has_key k) lb)) as Sb.
-      change (sort_stable (filter (has_key k) la)) with (g_a g) in Sa.
-      change (sort_stable (filter (has_key k) lb)) with (g_b g) in Sb.
-      destruct (g_a g) as [|a0 ga] eqn:Ea; [destruct Ga|]. destruct (g_b g) as [|b0 gb] eqn:Eb; [destruct Gb|].
-      assert (Hex : existsb (fun x => existsb (fun y => ts y <? ts x) (b0 :: gb)) (a0 :: ga) = true).
-      { apply existsb_exists. exists a. split; [exact Ga|]. apply existsb_exists. exists b. split; [exact Gb|]. lia. }
-      rewrite Hex, andb_true_r in Hblk.
-      assert (H0 : ts b0 < ts a0) by lia.
-      destruct (preceded_by_all_matched (pair_where wh ta tb) (a0 :: ga) gb b0) with (a := a) as [b' Hb'].
-      + exact Sa.
-      + intros x [Hx|Hx]; [subst; exact H0|]. pose proof (sorted_head_le _ _ Sa x Hx). lia.
-      + intros x y Hx Hy. apply (members_pass k); [change (In x (g_a g)); rewrite Ea; exact Hx|change (In y (g_b g)); rewrite Eb; exact Hy].
-      + exact Ga.
+      destruct (proj2 (preceded_by_matched_iff (pair_where wh ta tb) (g_a g) (g_b g)
+                         (sort_stable_sorted _) (sort_stable_sorted _)
+                         (fun x y Hx Hy => members_pass k x y Hx Hy) a Ga)) as [b' Hb'].
+      + exists b. split; assumption.
       + exists b'. unfold matcher, match_sequences. cbn [opt_take].
         apply in_flat_map. exists g. split; [apply sort_groups_In; exact Hg|].
-        unfold match_group. rewrite Ea, Eb. exact Hb'.
+        rewrite (match_group_nonempty _ _ _ _ _ Ga Gb). exact Hb'.
   Qed.
 End Composed.
 
-(** "an a-event is matched iff a strictly earlier b-event exists" is FALSE of PRECEDED BY: with
-    a@1, b@5, a@10 under one link value the sweep meets a@1 first, finds b@5 not earlier, advances
-    the *b* pointer past the end and returns nothing, although a@10 is preceded by b@5. *)
-Theorem preceded_by_refuted :
+(** the former counter-example of PRECEDED BY (a@1, b@5, a@10 under one link value returned nothing
+    before fix 49473e7) now returns the pair a@10 / b@5 *)
+Example preceded_by_former_witness :
   let a1 := ev 0 7 1 f_x 0 in
   let a2 := ev 1 7 10 f_x 0 in
   let b := ev 0 7 5 f_y 0 in
-  seq_query PrecededBy None t_pa t_pb None [a1; a2] [b] = [] /\
-  In b [b] /\ linked a2 b /\ time_lt b a2 /\ spec_where [f_x] [f_y] None t_pa t_pb a2 b = true /\
-  existsb preceded_blocked (make_groups [a1; a2] [b]) = true.
-Proof.
-  cbv zeta. split; [vm_compute; reflexivity|]. split; [left; reflexivity|].
-  split; [exists (LInt 7); split; reflexivity|]. split; [vm_compute; reflexivity|]. split; vm_compute; reflexivity.
-Qed.
-
-(** ... and that is all that happens in a blocked group: it contributes no pair at all *)
-Theorem preceded_blocked_group_empty : forall w g,
-  Sorted ts_le (g_b g) -> preceded_blocked g = true -> match_group PrecededBy w g = [].
-Proof.
-  intros w g Sb H. unfold preceded_blocked in H. unfold match_group.
-  destruct (g_a g) as [|a0 ga]; [reflexivity|]. destruct (g_b g) as [|b0 gb]; [reflexivity|].
-  apply andb_true_iff in H. destruct H as [H _].
-  apply preceded_by_blocked_empty; [exact Sb|].
-  intros b [Hb|Hb]; [subst; lia|]. pose proof (sorted_head_le _ _ Sb b Hb). lia.
-Qed.
+  seq_query PrecededBy None t_pa t_pb None [a1; a2] [b] = [(a2, b)].
+Proof. vm_compute. reflexivity. Qed.
 
 (** the sweep alone, on sorted lists and a WHERE that accepts every pair: matched iff a b-row at the
     same time or later exists *)
@@ -623,94 +618,10 @@ Example composed_hypotheses_sat :
   bytes_eqb t_pa t_pb = false /\ conjunctive_where [f_x] [f_y] wh t_pa t_pb = true /\
   (forall e, In e (sa ++ sb) -> time_ok e = true) /\
   length (seq_query FollowedBy wh t_pa t_pb None sa sb) = 1%nat /\
-  (forall g, In g (make_groups (sub_query wh t_pa sa) (sub_query wh t_pb sb)) -> preceded_blocked g = false) /\
   length (seq_query PrecededBy wh t_pa t_pb None sa sb) = 3%nat.
 Proof.
   cbv zeta. split; [reflexivity|]. split; [reflexivity|]. split.
   - intros e H. cbn in H. repeat (destruct H as [H|H]; [subst; reflexivity|]). destruct H.
-  - split; [vm_compute; reflexivity|]. split; [|vm_compute; reflexivity].
-    intros g H. vm_compute in H. repeat (destruct H as [H|H]; [subst; reflexivity|]). destruct H.
+  - split; vm_compute; reflexivity.
 Qed.
 
-(** * The proposed repair of PRECEDED BY (fixes/C15-preceded-by-advance-a.diff)
-
-    With the a pointer advancing in the final [else] branch the sweep is complete: on time-sorted
-    lists and a WHERE accepting every pair, an a-row is matched iff a strictly earlier b-row exists,
-    and it is matched with the latest such row. *)
-
-Lemma preceded_fixed_cons : forall w a la b lb,
-  preceded_by_gen true w (a :: la) (b :: lb) =
-  if ts b <? ts a then
-    let '(l, rest) := latest_before (ts a) b lb in
-    (if w a l then [(a, l)] else []) ++ preceded_by_gen true w la (l :: rest)
-  else preceded_by_gen true w la (b :: lb).
-Proof. reflexivity. Qed.
-
-Lemma preceded_fixed_nil_r : forall w la, preceded_by_gen true w la [] = [].
-Proof. destruct la; reflexivity. Qed.
-
-Lemma preceded_fixed_sound : forall w la lb a b,
-  In (a, b) (preceded_by_gen true w la lb) -> In a la /\ In b lb /\ ts b < ts a /\ w a b = true.
-Proof.
-  intros w la. induction la as [|a0 la IH]; intros lb a b H; [destruct H|].
-  destruct lb as [|b0 lb]; [rewrite preceded_fixed_nil_r in H; destruct H|].
-  rewrite preceded_fixed_cons in H. destruct (ts b0 <? ts a0) eqn:E.
-  - destruct (latest_before (ts a0) b0 lb) as [l rest] eqn:El.
-    destruct (latest_before_spec _ _ _ _ _ El ltac:(lia)) as [L1 [L2 L3]].
-    apply in_app_or in H. destruct H as [H|H].
-    + destruct (w a0 l) eqn:Ew; [|destruct H]. destruct H as [H|[]]. inversion H. subst.
-      repeat split; try (left; reflexivity); assumption.
-    + apply IH in H. destruct H as [Ha [Hb Hr]]. repeat split; try tauto; [right; exact Ha|].
-      destruct Hb as [Hb|Hb]; [subst; exact L2|]. right. apply L3. exact Hb.
-  - apply IH in H. destruct H as [Ha [Hb Hr]]. repeat split; try tauto. right. exact Ha.
-Qed.
-
-Lemma preceded_fixed_all_matched : forall w la lb b0,
-  Sorted ts_le la ->
-  (forall a, In a la -> ts b0 < ts a) ->
-  (forall a b, In a la -> In b (b0 :: lb) -> w a b = true) ->
-  forall a, In a la -> exists b, In (a, b) (preceded_by_gen true w la (b0 :: lb)).
-Proof.
-  intros w la. induction la as [|a0 la IH]; intros lb b0 Sa Hlt Hw a Ha; [destruct Ha|].
-  rewrite preceded_fixed_cons.
-  assert (E : ts b0 <? ts a0 = true) by (specialize (Hlt a0 (or_introl eq_refl)); lia). rewrite E.
-  destruct (latest_before (ts a0) b0 lb) as [l rest] eqn:El.
-  destruct (latest_before_spec _ _ _ _ _ El ltac:(lia)) as [L1 [L2 L3]].
-  destruct Ha as [Ha|Ha].
-  - subst a0. exists l. apply in_or_app. left. rewrite Hw; [left; reflexivity|left; reflexivity|exact L2].
-  - destruct (IH rest l (sorted_tail _ _ Sa)) with (a := a) as [b Hb]; auto.
-    + intros x Hx. pose proof (sorted_head_le _ _ Sa x Hx). lia.
-    + intros x y Hx Hy. apply Hw; [right; exact Hx|]. destruct Hy as [Hy|Hy]; [subst; exact L2|].
-      right. apply L3. exact Hy.
-    + exists b. apply in_or_app. right. exact Hb.
-Qed.
-
-Lemma preceded_fixed_complete : forall w la lb,
-  Sorted ts_le la -> Sorted ts_le lb ->
-  (forall a b, In a la -> In b lb -> w a b = true) ->
-  forall a, In a la -> (exists b, In b lb /\ ts b < ts a) -> exists b, In (a, b) (preceded_by_gen true w la lb).
-Proof.
-  intros w la. induction la as [|a0 la IH]; intros lb Sa Sb Hw a Ha Hex; [destruct Ha|].
-  destruct lb as [|b0 lb]; [destruct Hex as [b [[] _]]|].
-  destruct (ts b0 <? ts a0) eqn:E.
-  - (* the head of the b-list is before the earliest a-row: everybody is matched *)
-    apply preceded_fixed_all_matched; auto.
-    intros x [Hx|Hx]; [subst; lia|]. pose proof (sorted_head_le _ _ Sa x Hx). lia.
-  - (* a0 has no earlier b-row (the b-list is sorted): it is skipped, the b-list is kept *)
-    rewrite preceded_fixed_cons, E.
-    destruct Ha as [Ha|Ha].
-    + subst a0. destruct Hex as [b [Hb Hlt]]. exfalso.
-      destruct Hb as [Hb|Hb]; [subst; lia|]. pose proof (sorted_head_le _ _ Sb b Hb). lia.
-    + apply IH; auto; [exact (sorted_tail _ _ Sa)|]. intros; apply Hw; [right|]; assumption.
-Qed.
-
-Theorem preceded_by_fix_correct : forall w la lb,
-  Sorted ts_le la -> Sorted ts_le lb ->
-  (forall a b, In a la -> In b lb -> w a b = true) ->
-  forall a, In a la ->
-  ((exists b, In (a, b) (preceded_by_gen true w la lb)) <-> (exists b, In b lb /\ ts b < ts a)).
-Proof.
-  intros w la lb Sa Sb Hw a Ha. split.
-  - intros [b H]. apply preceded_fixed_sound in H. exists b. tauto.
-  - intros H. eapply preceded_fixed_complete; eauto.
-Qed.
